@@ -678,4 +678,115 @@ theorem ef_scanRegex (isPrint : Nat → Bool)
     pure, M.pure, litRoot]
   exact ⟨_, rfl⟩
 
+
+/-! ## the capture pre-scan -/
+
+theorem ef_countStep_raw (s : PS) (c : Nat) (tl : List Nat) (hD : E.pat.drop s.pos = c :: tl)
+    (hc : isStopperXCh c = false) : countStep E s = .ok () { s with pos := s.pos + 1 } := by
+  obtain ⟨hlt, hcc, hr⟩ := drop_cons_facts E hD
+  have hs : c ≠ 92 ∧ c ≠ 35 ∧ c ≠ 91 ∧ c ≠ 41 ∧ c ≠ 40 := by
+    simp [isStopperXCh, isSpecialCh] at hc; omega
+  obtain ⟨n1, n2, n3, n4, n5⟩ := hs
+  unfold countStep
+  simp [bind, M.bind, moveRightGetChar, rightChar, moveRight, modify, opts, pure, M.pure, hcc, n1, n2, n3, n4, n5]
+
+theorem ef_countStep_esc (isPrint : Nat → Bool)
+    (hW : ∀ c, Generated.metaChars.contains c = true → E.orc.isWord c = false)
+    (s : PS) (r : Nat) (body tl : List Nat) (hb : escapeRune isPrint r = 92 :: body)
+    (hD : E.pat.drop s.pos = 92 :: (body ++ tl)) (hi : s.options.i = false) :
+    countStep E s = .ok () { s with pos := s.pos + 1 + body.length } := by
+  obtain ⟨hlt, hcc, hr⟩ := drop_cons_facts E hD
+  have e6 := ef_scanBackslash_escapeRune E isPrint hW r body tl hb true { s with pos := s.pos + 1 } hr hi
+  unfold countStep
+  by_cases hl : E.pat.length - (s.pos + 1) > 0
+  · simp [bind, M.bind, moveRightGetChar, rightChar, moveRight, modify, opts, pure, M.pure, hcc, charsRight, hl,
+      ignoreErr, attempt, e6]
+  · have : body = [] := by
+      have := congrArg List.length hr; simp at this
+      exact List.eq_nil_of_length_eq_zero (by omega)
+    subst this
+    simp [bind, M.bind, moveRightGetChar, rightChar, moveRight, modify, opts, pure, M.pure, hcc, charsRight, hl]
+
+/-- the body of the loop of `countCaptures` -/
+def countBody : Unit → M (Sum Unit Unit) := fun _ => do
+  let cr ← charsRight E
+  if cr = 0 then pure (.inr ()) else do
+    countStep E
+    pure (.inl ())
+
+/-- the pre-scan of `Escape w` only moves the position -/
+theorem ef_countLoop (isPrint : Nat → Bool)
+    (hW : ∀ c, Generated.metaChars.contains c = true → E.orc.isWord c = false)
+    (hP : ∀ c, 9 ≤ c → c ≤ 13 → isPrint c = false) (w : List Nat) :
+    ∀ (s : PS) (fuel : Nat), E.pat.drop s.pos = escape isPrint w → s.options.i = false → w.length < fuel →
+      ∃ p', iter (countBody E) fuel () s = .ok () { s with pos := p' } := by
+  induction w with
+  | nil =>
+    intro s fuel hD hi hf
+    obtain ⟨fuel, rfl⟩ : ∃ m, fuel = m + 1 := ⟨fuel - 1, by omega⟩
+    have hl : E.pat.length - s.pos = 0 := by
+      have := congrArg List.length hD; simpa [escape] using this
+    refine ⟨s.pos, iter_inr _ _ _ _ _ _ ?_⟩
+    simp [countBody, bind, M.bind, charsRight, hl, pure, M.pure]
+  | cons r w ih =>
+    intro s fuel hD hi hf
+    obtain ⟨fuel, rfl⟩ : ∃ m, fuel = m + 1 := ⟨fuel - 1, by omega⟩
+    rw [ef_escape_cons] at hD
+    by_cases hr : isRaw isPrint r = true
+    · rw [ef_escapeRune_raw isPrint r hr] at hD
+      simp only [List.cons_append, List.nil_append] at hD
+      obtain ⟨hlt, _, hd1⟩ := drop_cons_facts E hD
+      have hl : E.pat.length - s.pos ≠ 0 := by omega
+      obtain ⟨p', h⟩ := ih { s with pos := s.pos + 1 } fuel hd1 hi (by simp at hf; omega)
+      refine ⟨p', (iter_inl _ _ _ () _ _ ?_).trans h⟩
+      simp [countBody, bind, M.bind, charsRight, hl, pure, M.pure,
+        ef_countStep_raw E s r _ hD (ef_raw_ord isPrint hP r hr)]
+    · obtain ⟨body, hb⟩ := ef_escapeRune_esc isPrint r (by simpa using hr)
+      rw [hb] at hD
+      simp only [List.cons_append] at hD
+      obtain ⟨hlt, _, hd1⟩ := drop_cons_facts E hD
+      obtain ⟨hd2, _⟩ := drop_add_of_append hd1
+      have hl : E.pat.length - s.pos ≠ 0 := by omega
+      obtain ⟨p', h⟩ := ih { s with pos := s.pos + 1 + body.length } fuel hd2 hi (by simp at hf; omega)
+      refine ⟨p', (iter_inl _ _ _ () _ _ ?_).trans h⟩
+      simp [countBody, bind, M.bind, charsRight, hl, pure, M.pure, ef_countStep_esc E isPrint hW s r body _ hb hD hi]
+
+/-- the capture tables of a pattern without groups: slot 0 only, no names -/
+def noGroupTables : Groups.Tables :=
+  if E.ord then Groups.assignOrderedNameSlots E.cfg Groups.initState else Groups.assignNameSlots Groups.initState
+
+theorem countCaptures_eq (fuel : Nat) : countCaptures E fuel = (do
+    modify fun s => { s with g := Groups.initState }
+    iter (countBody E) fuel ()
+    assignNameSlots E) := rfl
+
+theorem ef_countCaptures (isPrint : Nat → Bool)
+    (hW : ∀ c, Generated.metaChars.contains c = true → E.orc.isWord c = false)
+    (hP : ∀ c, 9 ≤ c → c ≤ 13 → isPrint c = false)
+    (w : List Nat) (hpat : E.pat = escape isPrint w) (s : PS) (hpos : s.pos = 0)
+    (hi : s.options.i = false) (fuel : Nat) (hf : E.pat.length < fuel) :
+    ∃ s', countCaptures E fuel s = .ok (noGroupTables E) s' := by
+  have hlen : w.length < fuel := by
+    have := Lemmas.Escape.escape_length isPrint w; rw [← hpat] at this; omega
+  obtain ⟨p', h⟩ := ef_countLoop E isPrint hW hP w { s with g := Groups.initState } fuel
+    (by simp [hpos, hpat]) hi hlen
+  rw [countCaptures_eq]
+  simp only [bind, M.bind, modify, h, assignNameSlots, noGroupTables]
+  cases E.ord <;> simp [Groups.initState]
+
+/-- **`Parse` on `Escape w`**, any option set without IgnoreCase -/
+theorem ef_parse (isPrint : Nat → Bool)
+    (hW : ∀ c, Generated.metaChars.contains c = true → E.orc.isWord c = false)
+    (hP : ∀ c, 9 ≤ c → c ≤ 13 → isPrint c = false)
+    (w : List Nat) (hpat : E.pat = escape isPrint w) (hi : E.opts.i = false) :
+    ∃ ks, parse E = .ok { root := litRoot E.opts ks, tables := noGroupTables E } ∧ kidsRunes ks = some w := by
+  obtain ⟨s1, h1⟩ := ef_countCaptures E isPrint hW hP w hpat { options := E.opts } rfl hi
+    (E.pat.length + 1) (by omega)
+  obtain ⟨ks, s2, h2, h3⟩ := ef_scanRegex E isPrint hW hP w hpat (resetState E (noGroupTables E)) rfl rfl hi
+    (E.pat.length + 1) (by omega)
+  refine ⟨ks, ?_, h3⟩
+  unfold parse parseFuel
+  simp only [h1, h2]
+  rfl
+
 end RegexVerif.Parser
